@@ -171,7 +171,7 @@ fn scales_sweep(o: &mut Outcome, c19: bool, n_random: usize, seed: u64) {
 
 pub fn c08(quick: bool, seed: u64) -> Outcome {
     let mut o = Outcome::new(
-        "complete generator over all 4095 non-empty scales x per-scale input list (every half-semitone grid point k/24, k=0..240, with offsets {0,+-1e-6,+-2e-5}: all decision boundaries between any two notes; out-of-range and non-finite values; N seed-derived uniform values, N = 2000 quick / 20000 thorough); a fresh quantizer per conversion, its scale configured in one of four ways in turn (one forbid of the complement; forbid-all with the lowest/highest class last - the would-empty rule - then allow; class by class); acceptance predicate (allowed, in the one-semitone-below window or nearest, ties within 10 uV) and monotonicity along the sorted inputs. Plus the complete 10,000,001-value microvolt sweep for the chromatic scale, {E,B} and 2 seed-chosen scales (quick) / the chromatic scale, {E,B}, the 12 singletons and 114 seed-chosen scales (thorough). non-trivial = conversion of a non-chromatic scale in octave >= 1 whose note is not in the input's own octave, or an input within 1/1000 semitone of a half-semitone grid point (counted; distinct by construction: each (scale,input) pair occurs once)",
+        "complete generator over all 4095 non-empty scales x per-scale input list (every half-semitone grid point k/24, k=0..240, with offsets {0,+-1e-6,+-2e-5}: all decision boundaries between any two notes; out-of-range and non-finite values; N seed-derived uniform values, N = 2000 quick / 20000 thorough); a fresh quantizer per conversion, its scale configured in one of six ways in turn (one forbid of the complement; forbid-all with the lowest/highest class last - the would-empty rule - then allow, with that class allowed or forbidden beforehand; class by class); acceptance predicate (allowed, in the one-semitone-below window or nearest, ties within 10 uV) and monotonicity along the sorted inputs. Plus the complete 10,000,001-value microvolt sweep for the chromatic scale, {E,B} and 2 seed-chosen scales (quick) / the chromatic scale, {E,B}, the 12 singletons and 114 seed-chosen scales (thorough). non-trivial = conversion of a non-chromatic scale in octave >= 1 whose note is not in the input's own octave, or an input within 1/1000 semitone of a half-semitone grid point (counted; distinct by construction: each (scale,input) pair occurs once)",
     );
     o.assumptions.push("tie tolerance 10 uV at every decision boundary (the quantizer works on an integer microvolt grid)".into());
     scales_sweep(&mut o, false, if quick { 2_000 } else { 20_000 }, seed);
